@@ -23,6 +23,10 @@ PLAN = {
     "C10": ("vm", (24, 8), (480, 16)),
     "C20": ("lock", (24, 8), (480, 16)),
 }
+# further modes a property runs after its first one
+EXTRA = {
+    "C20": [("poison", (12, 8), (240, 16))],
+}
 
 
 def n_parallel():
@@ -50,9 +54,17 @@ def verif_seed():
 
 
 def run(prop, tier):
-    mode, quick, thorough = PLAN[prop]
+    rc = run_mode(prop, tier, *PLAN[prop], first=True)
+    for extra in EXTRA.get(prop, []):
+        if rc != 0:
+            break
+        rc = run_mode(prop, tier, *extra, first=False)
+    return rc
+
+
+def run_mode(prop, tier, mode, quick, thorough, first=True):
     n_w, n_m = quick if tier != "thorough" else thorough
-    base = verif_seed() * 1000003 + {"C02": 11, "C04": 13, "C05": 17, "C06": 19, "C10": 23, "C20": 37}[prop]
+    base = verif_seed() * 1000003 + {"C02": 11, "C04": 13, "C05": 17, "C06": 19, "C10": 23, "C20": 37}[prop] + (0 if first else 500)
     t0 = time.time()
     runs = 0
     oks = []
@@ -101,20 +113,22 @@ def run(prop, tier):
             json.dump(doc, open(path, "w"), indent=1)
             print("  " + detail[0][:300])
             print(f"VIOLATION property={prop} replay={path}")
-            patch_evidence(prop, tier, runs, n_w, n_m, time.time() - t0, oks, 1)
+            patch_evidence(prop, tier, runs, n_w, n_m, time.time() - t0, oks, 1, mode)
             return 1
-    patch_evidence(prop, tier, runs, n_w, n_m, time.time() - t0, oks, 0)
-    print(f"{prop} {tier} E2(miri): {runs} executions ({n_w} workloads x {n_m} miri seeds), 0 violations, {time.time()-t0:.1f}s")
+    patch_evidence(prop, tier, runs, n_w, n_m, time.time() - t0, oks, 0, mode)
+    print(f"{prop} {tier} E2(miri, {mode}): {runs} executions ({n_w} workloads x {n_m} miri seeds), 0 violations, {time.time()-t0:.1f}s")
     return 0
 
 
-def patch_evidence(prop, tier, runs, n_w, n_m, wall, samples, violations):
+def patch_evidence(prop, tier, runs, n_w, n_m, wall, samples, violations, mode=None):
     path = f"/verif/evidence/{prop}.json"
     try:
         ev = json.load(open(path))
     except Exception:
         return
-    ev["coverage"]["e2_miri"] = {
+    key = "e2_miri" if mode in (None, PLAN[prop][0]) else "e2_miri_" + mode
+    ev["coverage"][key] = {
+        "mode": mode or PLAN[prop][0],
         "what": "the untouched /repo crates on real rayon / real std primitives under Miri's seeded scheduler (pre-emption at basic-block granularity); removes E1's stubs (rayon-sim, atomic OnceLock, shuttle Mutex) from the trusted base on this sample",
         "executions": runs, "workload_seeds": n_w, "miri_seeds_per_workload": n_m,
         "wall_s": round(wall, 1), "violations": violations, "samples": samples[:3],
